@@ -14,7 +14,8 @@ EXPLANATION = (
     "writer and reader agree; (CHECK) the in-check verdict probes the mover's own king square; (LABEL) every "
     "capture-labelled move is drawn from a destination set intersected with the opponent's occupancy and every "
     "quiet-labelled move from one intersected with the empty squares (pawn pushes: the squares in front); (PROMO) "
-    "each of the four promotion kinds is generated exactly once per promoting move. Not decided: "
+    "each of the four promotion kinds is generated exactly once per promoting move; (PROMORANK) the source set of every "
+    "pawn move is split by the pre-promotion-rank mask, promotion labels on it and plain labels off it. Not decided: "
     "completeness/exactness of pin and check-mask algebra, pawn pushes, slider rays (set equality over all positions)."
 )
 
@@ -767,6 +768,7 @@ def rule_label(fx, rep):
             if not good:
                 bad(k + (f"/{seen[k]}" if seen[k] > 1 else ""), f"`{b.name}` line {t.get('line')} builds Move::{ctor} but {why}: a move would carry the wrong capture/quiet label (make_move and move ordering trust it)", b, t.get("line"))
     rep.rule("C01-LABEL", n, 19, ok, "capture/quiet labels match the occupancy of the destination set")
+    rule_promorank(fx, rep)
     # promotions: each of the four kinds exactly once per kind of promotion
     ok2 = True
     for ctor, lst in promo.items():
@@ -784,6 +786,71 @@ def rule_label(fx, rep):
         ok2 = False
         rep.violation("C01-PROMO", "C01-PROMO/stages", "generate_legal_moves does not run the capture stage and the quiet stage exactly once each", {"fn": glm.name, "file": glm.file, "line": glm.line})
     rep.rule("C01-PROMO", len(promo["capture_promotion"]) + len(promo["quiet_promotion"]) + 1, 9, ok2, "promotion kinds listed exactly once; both stages run once")
+
+
+def is_pawn_set(fx, body, f):
+    """factor is the side to move's pawn set"""
+    def pred(e):
+        return isinstance(e, tuple) and e and e[0] == "call" and e[1].endswith("Board::pawns") and is_game_board(e[2][0]) and is_game_player(e[2][1])
+    return factor_is(fx, body, f, pred)
+
+
+def rank_mask_kind(f):
+    """'promo' for pawn_back_rank(other(player)) (the rank from which a pawn promotes), 'start' for pawn_back_rank(player);
+    prefixed with '!' when negated"""
+    f = deep_strip(f)
+    neg = False
+    if isinstance(f, tuple) and f and f[0] == "call" and f[1].endswith("Not>::not"):
+        neg = True
+        f = deep_strip(f[2][0])
+    if isinstance(f, tuple) and f and f[0] == "call" and f[1].endswith("bitboards::pawn_back_rank"):
+        a = deep_strip(f[2][0])
+        if is_game_player(a):
+            return ("!" if neg else "") + "start"
+        if isinstance(a, tuple) and a[0] == "call" and a[1].endswith("Player::other") and is_game_player(a[2][0]):
+            return ("!" if neg else "") + "promo"
+    return None
+
+
+def rule_promorank(fx, rep):
+    """A pawn standing on its pre-promotion rank may only produce promotion-labelled moves and vice versa: the source
+    set of every pawn move is split by the promotion-rank mask."""
+    ok = True
+    n = 0
+    seen = {}
+    for b in fx.fn_bodies():
+        if not norm(b.name).startswith("chess::movegen::gen::") or "::tests::" in b.name:
+            continue
+        for bb, t in b.calls():
+            cn = norm(callee_name(t) or "")
+            if not cn.startswith("chess::moves::Move::"):
+                continue
+            ctor = cn.split("::")[-1]
+            if ctor not in ("capture", "quiet", "capture_promotion", "quiet_promotion"):
+                continue
+            src = b.expr(t["args"][0], expand_named=True, at=bb)
+            sset = iter_source(src)
+            if sset is None:
+                continue
+            factors = and_factors(sset)
+            if not any(is_pawn_set(fx, b, f) for f in factors):
+                continue
+            n += 1
+            kinds = {rank_mask_kind(f) for f in factors} - {None}
+            if ctor.endswith("promotion"):
+                good = "promo" in kinds
+                why = "its source pawns are not restricted to the pre-promotion rank"
+            else:
+                good = "!promo" in kinds or "start" in kinds
+                why = "its source pawns are not kept off the pre-promotion rank: a pawn reaching the last rank would be listed without promoting"
+            rep.obligation(good)
+            k = f"{norm(b.name).split('::')[-1]}/{ctor}"
+            seen[k] = seen.get(k, 0) + 1
+            if not good:
+                ok = False
+                rep.violation("C01-PROMORANK", f"C01-PROMORANK/{k}" + (f"/{seen[k]}" if seen[k] > 1 else ""),
+                              f"`{b.name}` line {t.get('line')} builds a pawn Move::{ctor} but {why}", {"fn": b.name, "file": b.file, "line": t.get("line")})
+    rep.rule("C01-PROMORANK", n, 11, ok, "pawn moves split by the promotion-rank mask")
 
 
 def enum_name_of(e):
@@ -830,6 +897,8 @@ MUTANTS = [
      "edits": [(GEN, "    for dst in destinations & !all_pieces {\n        if attackers::generate_attackers_of(&board_without_king, game.player, dst).is_empty() {\n            moves.push(Move::quiet(king, dst));", "    for dst in destinations & (!all_pieces | game.board.occupancy_for(game.player.other())) {\n        if attackers::generate_attackers_of(&board_without_king, game.player, dst).is_empty() {\n            moves.push(Move::quiet(king, dst));")]},
     {"name": "knight under-promotion listed in both stages", "expect": "C01-PROMO",
      "edits": [(GEN, "            moves.push(Move::quiet_promotion(\n                pawn,\n                target,\n                PromotionPieceKind::Queen,\n            ));\n        }\n    }\n\n    // Non-promoting captures", "            moves.push(Move::quiet_promotion(\n                pawn,\n                target,\n                PromotionPieceKind::Queen,\n            ));\n            moves.push(Move::quiet_promotion(\n                pawn,\n                target,\n                PromotionPieceKind::Knight,\n            ));\n        }\n    }\n\n    // Non-promoting captures")]},
+    {"name": "pinned pawns captured in a separate loop without the promotion split (seed C01-1)", "expect": "C01-PROMORANK",
+     "edits": [(GEN, "    // Non-promoting captures: All pawns can capture diagonally\n    for pawn in can_capture_pawns & !will_promote_rank {", "    // Non-promoting captures: All pawns can capture diagonally\n    for pawn in can_capture_pawns & !(will_promote_rank & !diagonal_pins) {")]},
     {"name": "benign: rename scratch board and reorder removals", "benign": True,
      "edits": [(GEN, "                    board_without_en_passant_participants\n                        .remove_at(potential_en_passant_capture_start);\n                    board_without_en_passant_participants.remove_at(captured_pawn);\n",
                 "                    board_without_en_passant_participants.remove_at(captured_pawn);\n                    board_without_en_passant_participants\n                        .remove_at(potential_en_passant_capture_start);\n")]},
